@@ -286,3 +286,89 @@ Example C19_history_before_first_keys_nonvacuous :
   get_ptr (st_ptrs (fst (run xcfg xst [OpSlot 11 PRegistered; OpSlot 12 PRegistered]))) 0
     = Some (mkP 0 0 (Some 1)).
 Proof. split; vm_compute; reflexivity. Qed.
+
+(* The second tie: the decision logic of newslot.go (getDecryptionIdentityPreimages with its
+   uint64 row limit and gas counter, the selection loop, the identity constructions, the sort
+   comparator, getTxPointer with its age / outdated decision, the guards of
+   maybeTriggerDecryption and the order of the calls that follow) and the pointer arithmetic of
+   HandleMessage / advanceTxPointer, translated statement by statement from the source on this
+   run (Generated/GnosisSlotFuns.v), compute what the model computes. A changed comparison,
+   cast, constant or step order breaks this obligation before any case is generated. *)
+From Coq Require Import String.
+Import List.
+From Verif Require Import Generated.GnosisSlotFuns Proofs.GnosisSlotFuns.
+Theorem C19_translated_slot_logic_agrees :
+  (* getDecryptionIdentityPreimages, with the query as a parameter *)
+  (forall cfg q slot e p,
+     0 <= cfg_gas_limit cfg -> 0 < cfg_min_gas cfg -> 0 <= slot < two64 ->
+     gen_identities (cfg_gas_limit cfg) (cfg_min_gas cfg) (select_events q) slot e p =
+     result_of (identities cfg q slot e p)) /\
+  (* its loop: [taken] of the model is len(identityPreimages) > 1 *)
+  (forall L evs gas pre, (1 <= length pre)%nat ->
+     gen_sel_loop L gas pre evs =
+     option_map (fun l => pre ++ l) (sel_loop L gas (1 <? Z.of_nat (length pre)) evs)) /\
+  (forall slot, 0 <= slot < two64 -> gen_slot_identity slot = slot_identity slot) /\
+  (forall r, gen_event_identity r = event_identity r) /\
+  (forall a b, gen_identity_less a b = bytes_ltb a b) /\
+  (forall l, gen_sort_identities l = sort_ids l) /\
+  (* getTxPointer: result and the row it writes *)
+  (forall maxage q ptrs e,
+     let row := get_ptr ptrs e in
+     gen_get_tx_pointer e maxage (row_missing row) false (row_value row) (row_age row) (row_age_valid row) false
+                        (queue_length q e)
+     = match snd (get_tx_pointer maxage q ptrs e) with
+       | None => None
+       | Some p => Some (p, if row_missing row then [(e, 0, true, 0)] else [])
+       end
+     /\ fst (get_tx_pointer maxage q ptrs e) = (if row_missing row then set_ptr ptrs e 0 (Some 0) else ptrs)) /\
+  (* maybeTriggerDecryption: new_slot is its guards followed by its calls in this order *)
+  (forall cfg st slot pr,
+     (forall ss sb, st_synced st = Some (ss, sb) -> 0 <= sb /\ sb + 1 < two63) ->
+     new_slot cfg st slot pr =
+     if gen_slot_seen (st_latest st) slot then (st, ONil)
+     else
+       let st1 := with_latest st (Some slot) in
+       let '(sslot, sblock) := match st_synced st with Some x => x | None => (0, 0) end in
+       if gen_slot_already_synced sslot slot then (st1, OErr EAlreadyProcessed)
+       else
+         let next := gen_next_block sblock in
+         match kset_for_block (st_ksets st) next with
+         | None => (st1, ONil)
+         | Some ks =>
+             if negb (k_member ks) then (st1, ONil)
+             else match pr with
+                  | PError => (st1, OErr EProposer)
+                  | PNotRegistered => (st1, ONil)
+                  | PRegistered =>
+                      match increment_age (st_ptrs st) (k_kci ks) with
+                      | None => (st1, OErr EIncrementAge)
+                      | Some ptrs => trigger_decryption cfg (with_ptrs st1 ptrs) slot next (k_kci ks)
+                      end
+                  end
+         end) /\
+  gen_maybe_trigger_calls =
+    ["GetTransactionSubmittedEventsSyncedUntil()"%string; "GetKeyperSet(nextBlock)"%string;
+     "Contains(kpr.config.GetAddress())"%string; "isProposerRegistered(slot, uint64(nextBlock))"%string;
+     "IncrementTxPointerAge(keyperSet.KeyperConfigIndex)"%string;
+     "triggerDecryption(slot, nextBlock, &keyperSet)"%string] /\
+  (* the pointer after a keys message *)
+  (forall eon txp nkeys,
+     gen_handler_set_pointer eon txp nkeys = (to_i64 eon, 0, true, new_pointer txp nkeys) /\
+     gen_middleware_set_pointer eon txp nkeys = (to_i64 eon, 0, true, new_pointer txp nkeys)).
+Proof.
+  split; [exact gen_identities_agrees|]. split; [exact gen_sel_loop_agrees|].
+  split; [exact gen_slot_identity_agrees|]. split; [exact gen_event_identity_agrees|].
+  split; [exact gen_identity_less_is|]. split; [exact gen_sort_identities_agrees|].
+  split; [exact gen_get_tx_pointer_agrees|]. split; [exact new_slot_via_generated|].
+  split; [exact gen_maybe_trigger_calls_ok|].
+  intros eon txp nkeys. split; [apply gen_handler_set_pointer_agrees|apply gen_middleware_set_pointer_agrees].
+Qed.
+Print Assumptions C19_translated_slot_logic_agrees.
+
+Example C19_translated_slot_logic_agrees_nonvacuous :
+  gen_identities (cfg_gas_limit xcfg) (cfg_min_gas xcfg) (select_events xq) 7 0 1
+    = GenOk [slot_identity 7; xid; xid] /\
+  gen_get_tx_pointer 0 3 false false 2 4 true false (queue_length xq 0) = Some (5, []) /\
+  gen_get_tx_pointer 0 3 true false 0 0 false false None = Some (0, [(0, 0, true, 0)]) /\
+  gen_handler_set_pointer 0 2 3 = (0, 0, true, 4).
+Proof. repeat split; vm_compute; reflexivity. Qed.
